@@ -517,3 +517,9 @@ def make_preservation(fit, getters, what):
 
 for _f in FITS:
     make_preservation(*_f)
+
+
+def fidelity(tier, seed):
+    """A-FRONT guard: MSSM a_mu and mass-matrix functions, interpreter (float mode) vs compiled real code on real spectra"""
+    from gm2v import fidelity as _fid
+    return _fid.mssm_model_guard(seed=seed)
